@@ -28,6 +28,9 @@ def domain_of(prop):
     if prop == "C10":
         from . import conc
         return conc
+    if prop == "C11":
+        from . import dispatch
+        return dispatch
     if prop == "C16":
         from . import cs
         return cs
